@@ -5,6 +5,9 @@
 // On the tsan variant every ThreadSanitizer report is a violation (picked up by the driver).
 #include "vh.h"
 
+#include <cstdlib>
+#include <new>
+
 #include <chrono>
 #include <thread>
 
@@ -13,6 +16,28 @@
 
 using rkcommon::containers::TransactionalBuffer;
 using rkcommon::utility::TransactionalValue;
+
+// allocation failpoint: when armed on the calling thread, its next allocation through operator new fails with
+// std::bad_alloc (memory pressure at one particular moment). Armed by the consumer around some consume() calls: a
+// hand-off that allocates while it holds the pending elements must not lose them when that allocation fails.
+static thread_local int t_failNextNew = 0;
+static std::atomic<long> g_newFailuresInjected(0);
+void *operator new(std::size_t n)
+{
+  if (t_failNextNew > 0 && --t_failNextNew == 0) {
+    g_newFailuresInjected.fetch_add(1, std::memory_order_relaxed);
+    throw std::bad_alloc();
+  }
+  void *p = malloc(n ? n : 1);
+  if (!p)
+    throw std::bad_alloc();
+  return p;
+}
+void *operator new[](std::size_t n) { return operator new(n); }
+void operator delete(void *p) noexcept { free(p); }
+void operator delete[](void *p) noexcept { free(p); }
+void operator delete(void *p, std::size_t) noexcept { free(p); }
+void operator delete[](void *p, std::size_t) noexcept { free(p); }
 
 // ------------------------------------------------------------------ payloads
 static inline uint64_t idOf(uint64_t v) { return v; }
@@ -52,7 +77,7 @@ static void bufferRound(int producers, long perProducer, int pace, long round, u
   std::atomic<bool> producersDone(false), stopPoll(false);
   std::atomic<int> go(0);
   std::vector<std::vector<T>> batches;
-  std::atomic<long> sizeViol(0), polls(0), maxSizeSeen(0), tornViol(0);
+  std::atomic<long> sizeViol(0), polls(0), maxSizeSeen(0), tornViol(0), consumeThrew(0);
   std::atomic<long> consumedTotal(0);
 
   std::vector<std::thread> prod;
@@ -94,7 +119,19 @@ static void bufferRound(int producers, long perProducer, int pace, long round, u
           std::this_thread::yield();
         continue;
       }
-      std::vector<T> b = buf.consume();
+      std::vector<T> b;
+      // now and then the consumer is out of memory for exactly one allocation while it consumes
+      bool pressure = r.chance(1, 5);
+      if (pressure)
+        t_failNextNew = 1;
+      try {
+        b = buf.consume();
+      } catch (const std::bad_alloc &) {
+        consumeThrew.fetch_add(1);
+        t_failNextNew = 0;
+        continue;  // nothing may be lost: the elements have to arrive with a later batch
+      }
+      t_failNextNew = 0;
       if (b.size() < s || (!e && b.empty()))
         tornViol.fetch_add(1);
       if (!b.empty()) {
@@ -138,6 +175,7 @@ static void bufferRound(int producers, long perProducer, int pace, long round, u
   stopPoll.store(true);
   poller.join();
 
+  vh::count("consume_calls_that_threw_bad_alloc", consumeThrew.load());
   if (tornViol.load())
     vh::violation("C12:buffer:size-or-empty-reported-a-state-the-buffer-was-not-in", std::to_string(tornViol.load()) + " time(s) the only consumer read size()==k / !empty() and the consume() right after it returned fewer than k elements / nothing", ctx);
   // quiescence: everything consumed
